@@ -1874,7 +1874,7 @@ fn verify_nsec(
     }
 
     let Some((covering_nsec_name, covering_nsec_data)) =
-        find_nsec_covering_record(soa_name, &query.name, nsecs)
+        find_nsec_covering_record(&query.name, nsecs)
     else {
         return nsec1_yield(
             Proof::Bogus,
@@ -1954,7 +1954,7 @@ fn verify_nsec(
             .map(|(name, _)| (*name).clone())
     };
 
-    match find_nsec_covering_record(soa_name, &wildcard_name, nsecs) {
+    match find_nsec_covering_record(&wildcard_name, nsecs) {
         // For NXDomain responses, we've already proved the record does not exist. Now we just need to prove
         // the wildcard name is covered.
         Some((_, _)) if response_code == ResponseCode::NXDomain && !have_answer => {
@@ -1966,7 +1966,7 @@ fn verify_nsec(
             if response_code == ResponseCode::NoError
                 && have_answer
                 && no_closer_matches(&query.name, soa_name, nsecs, wildcard_base_name.as_ref())
-                && find_nsec_covering_record(soa_name, &query.name, nsecs).is_some() =>
+                && find_nsec_covering_record(&query.name, nsecs).is_some() =>
         {
             nsec1_yield(
                 Proof::Secure,
@@ -2035,7 +2035,7 @@ fn no_closer_matches(
             return false;
         };
 
-        if find_nsec_covering_record(soa, &wildcard, nsecs).is_none() {
+        if find_nsec_covering_record(&wildcard, nsecs).is_none() {
             debug!(%wildcard, %name, ?nsecs, "covering record does not exist for name");
             return false;
         }
@@ -2048,7 +2048,6 @@ fn no_closer_matches(
 
 /// Find the NSEC record covering `test_name`, if any.
 fn find_nsec_covering_record<'a>(
-    soa_name: Option<&Name>,
     test_name: &Name,
     nsecs: &[(&'a Name, &'a NSEC)],
 ) -> Option<(&'a Name, &'a NSEC)> {
@@ -2064,8 +2063,12 @@ fn find_nsec_covering_record<'a>(
             return false;
         }
 
+        // The last NSEC record of a zone points back to the zone apex (RFC 4034 section 4.1.1), so
+        // its next domain name does not sort after its owner name. It covers every name of that
+        // zone that sorts after its owner name.
         test_name > nsec_name
-            && (test_name < next_domain_name || Some(next_domain_name) == soa_name)
+            && (test_name < next_domain_name
+                || (next_domain_name <= nsec_name && next_domain_name.zone_of(test_name)))
     })
 }
 
